@@ -25,6 +25,25 @@ pub fn generate(g: &mut Gen, thorough: bool) {
             g.push(op_line("default", &[], &[], &def, "apply", "F", &data_of(&pts)), &format!("model-{name}"), true);
         }
     }
+    // central meridians next to the antimeridian: the points within the strip whose longitudes, written in
+    // ]-180, 180], have the other sign are points of the domain like any other
+    for (def, lon_0) in [("utm zone=60", 177.0), ("utm zone=1", -177.0), ("tmerc lon_0=170 k_0=0.9996", 170.0), ("tmerc lon_0=-165 ellps=intl", -165.0), ("tmerc lon_0=180", 180.0)] {
+        let pts: Vec<[f64; 4]> = [-25.0, -12.0, -4.0, -1.0, 0.5, 2.0, 4.0, 11.0, 16.0, 28.0]
+            .iter()
+            .map(|d| {
+                let mut lon: f64 = lon_0 + d;
+                if lon > 180.0 {
+                    lon -= 360.0;
+                }
+                if lon <= -180.0 {
+                    lon += 360.0;
+                }
+                [lon.to_radians(), g.rng.uniform(-1.4, 1.4), 0.0, 0.0]
+            })
+            .collect();
+        case(g, "conformal", def, &[2e-8], &pts, "conformal-across-the-antimeridian");
+        g.push(op_line("default", &[], &[], def, "apply", "F", &data_of(&pts)), "model-across-the-antimeridian", true);
+    }
     // omerc with an initial line running due east at the centre (alpha = 90: Hungary, Switzerland), at every
     // latitude of the centre; with and without gamma_c (Laborde); variants A and B
     for latc in [4.0, 20.0, 36.0, 45.0, 47.14439372222, -45.0, -20.0, 60.0, 75.0] {
